@@ -96,6 +96,13 @@ func (c *Conn) ReadFrom(r io.Reader) (int64, error) {
 // Close closes the connection.
 // Any blocked Read or Write operations will be unblocked and return errors.
 func (c *Conn) Close() error {
+	// The per-URL buckets are created for this connection alone; each owns a
+	// ticker and a goroutine.
+	for _, b := range c.LocalBuckets {
+		b.ReadBucket.Close()
+		b.WriteBucket.Close()
+	}
+
 	return c.conn.Close()
 }
 
